@@ -34,3 +34,4 @@ def check(repo, rep, tier):
     rep.minimum('string literal templates', len(table), 1)
     rc.rule_list_order(cm, rep, 'C16.A7')
     re_.rule_unquote_delimiters(cm, rep, 'C16.A8')
+    re_.rule_anonymous_variables(cm, rep, 'C16.A9')
